@@ -135,7 +135,7 @@ CoversLength(kind) == kind = "lru"
 Bit31 == <<32768, 0>>
 UpdGuardOK(b, o)   == WFromLE(IgB(b, o), IgB(b, o + 1), IgB(b, o + 2), IgB(b, o + 3)) = WOr(HashLittle(IgSub(b, o + 4, o + 23), WZero), Bit31)
 LhdrSeed           == <<15723, 59761>>       \* 0x3D6BE971
-LhdrLane(b, base, j) == IgXorAll(SelectSeq([i \in 1..26 |-> IF (base + i - 1) % 4 = j THEN b[i] ELSE 0], LAMBDA x : TRUE))
+LhdrLane(b, base, j) == IgXorAll([i \in 1..26 |-> IF (base + i - 1) % 4 = j THEN b[i] ELSE 0])
 ProduceOK(kind, b, x) ==
   CASE kind = "enc"    -> \A r \in EncRegions(b) : IgSub(b, r.clo, r.chi) = Md5Digest(IgSub(b, r.lo, r.hi))
     [] kind = "aidx"   -> LET f == AidxFooter(b) IN IgSub(b, f + 20, f + 28) = IgTake(Md5Digest(IgSub(b, f + 8, f + 20) \o IgZeros(8)), 8)
@@ -162,19 +162,28 @@ FaultOK(judged, code) == judged => Rejected(code)
 Visited(p, len, stride, edge) == stride <= 1 \/ p < edge \/ p + edge >= len \/ p % stride = 0
 
 \* --------------------------------------------- 3. abstract artifacts (design)
-(* A cell sequence; data cells hold 0/1, the check cell holds the ideal hash of the data cells (the
-   sequence itself: injective and length-aware), a label cell holds "L".  Layouts:
-     lead     <<C, D...>>       check first, covers all that follows            (LRU file)
-     leadfix  <<C, D^n, U>>     check first, n data cells, then uncovered       (update entry, encoding page)
-     trail    <<U, D^n, C>>     check last, found from the END                  (archive footer, local header)
-     label    <<D..., L, C>>    check after the last label; no label = unchecked (V1 MIME)            *)
+(* A sequence of cells [t, v]: a plain cell ("b") holds one bit, a label cell ("L") nothing, a check
+   cell ("h") the ideal hash of the cells it covers - an injective, length-aware encoding of them.
+   A loader sees cells, not roles.  Layouts (d = n covered plain cells, u = an uncovered plain cell):
+     lead     <<C, d>>          check first, covers all that follows            (LRU file)
+     leadfix  <<C, d, u>>       check first, n covered cells, then uncovered    (update entry, encoding page)
+     trail    <<u, d, C>>       check last, found from the END                  (archive footer, local header)
+     label    <<d, L, C>>       check after the last label; no label = unchecked (V1 MIME)            *)
 AbsLayouts == {"lead", "leadfix", "trail", "label"}
-AbsHash(d) == <<"h", d>>
-AbsBuild(layout, d, u) ==
+PlainCell(bit) == [t |-> "b", v |-> <<bit>>]
+LabelCell      == [t |-> "L", v |-> <<>>]
+AbsTag(t)      == CASE t = "b" -> 2 [] t = "L" -> 3 [] t = "l" -> 4 [] t = "h" -> 5
+AbsEnc(cs)     == LET RECURSIVE F(_)
+                      F(i) == IF i > Len(cs) THEN <<>> ELSE <<AbsTag(cs[i].t), Len(cs[i].v)>> \o cs[i].v \o F(i + 1)
+                  IN F(1)
+AbsHash(cs)    == [t |-> "h", v |-> AbsEnc(cs)]
+AbsData(bits)  == [i \in 1..Len(bits) |-> PlainCell(bits[i])]
+AbsBuild(layout, bits, u) ==
+  LET d == AbsData(bits) IN
   CASE layout = "lead"    -> <<AbsHash(d)>> \o d
-    [] layout = "leadfix" -> <<AbsHash(d)>> \o d \o <<u>>
-    [] layout = "trail"   -> <<u>> \o d \o <<AbsHash(d)>>
-    [] layout = "label"   -> d \o <<"L", AbsHash(d)>>
+    [] layout = "leadfix" -> <<AbsHash(d)>> \o d \o <<PlainCell(u)>>
+    [] layout = "trail"   -> <<PlainCell(u)>> \o d \o <<AbsHash(d)>>
+    [] layout = "label"   -> d \o <<LabelCell, AbsHash(d)>>
 AbsRegions(layout, n) ==
   CASE layout = "lead"    -> {Rg(1, n + 1, 0, 1)}
     [] layout = "leadfix" -> {Rg(1, n + 1, 0, 1)}
@@ -186,13 +195,16 @@ AbsLoad(layout, n, a) ==
   CASE layout = "lead"    -> Len(a) >= 1 /\ a[1] = AbsHash(Tail(a))
     [] layout = "leadfix" -> Len(a) >= n + 1 /\ a[1] = AbsHash(SubSeq(a, 2, n + 1))
     [] layout = "trail"   -> Len(a) >= n + 1 /\ a[Len(a)] = AbsHash(SubSeq(a, Len(a) - n, Len(a) - 1))
-    [] layout = "label"   -> LET S == {p \in 1..Len(a) : a[p] = "L"} IN
+    [] layout = "label"   -> LET S == {p \in 1..Len(a) : a[p].t = "L"} IN
                              IF S = {} \/ IgMax(S) = Len(a) THEN TRUE      \* no (complete) checksum line: accepted unchecked
                              ELSE a[IgMax(S) + 1] = AbsHash(SubSeq(a, 1, IgMax(S) - 1))
-AbsFlipCell(c) == IF c \in {0, 1} THEN 1 - c ELSE <<"damaged", c>>
-AbsFlip(a, pos)     == [a EXCEPT ![pos + 1] = AbsFlipCell(a[pos + 1])]
-AbsTrunc(a, m)      == SubSeq(a, 1, m)
-AbsExtend(a, k, fill) == a \o (IF fill = "tail" THEN SubSeq(a, Len(a) - k + 1, Len(a)) ELSE [i \in 1..k |-> 0])
+AbsFlipCell(c) == CASE c.t = "b" -> PlainCell(1 - c.v[1])
+                    [] c.t = "L" -> [t |-> "l", v |-> <<>>]
+                    [] c.t = "h" -> [c EXCEPT !.v = c.v \o <<8>>]
+                    [] OTHER     -> c
+AbsFlip(a, pos)       == [a EXCEPT ![pos + 1] = AbsFlipCell(a[pos + 1])]
+AbsTrunc(a, m)        == SubSeq(a, 1, m)
+AbsExtend(a, k, fill) == a \o (IF fill = "tail" THEN SubSeq(a, Len(a) - k + 1, Len(a)) ELSE [i \in 1..k |-> PlainCell(0)])
 
 \* ------------------------------------------------------ 4. validated cache
 (* Abstract content: [v |-> value name, d |-> "ok" or the damage done to it].  A content key is named
